@@ -191,3 +191,101 @@ def history(text, steps, mode="shared", engine="default"):
         for k, v in _names(res).items():
             answers[k] = v
     return {"answers": answers}
+
+
+# ------------------------------------------------------------------ C34 containers
+def container_history(kind, ops):
+    """Run a history of public calls on the real util class; log args, result and projected state per call."""
+    from problog.util import OrderedSet, UHeap, BitVector
+    ev = []
+    if kind == "os":
+        x, y = OrderedSet(), OrderedSet()
+        for op in ops:
+            name = op[0]
+            e = {"op": name, "k": 0, "b": 0, "res": 0}
+            if name == "add":
+                e["k"] = op[1]; x.add(op[1])
+            elif name == "addy":
+                e["k"] = op[1]; y.add(op[1])
+            elif name == "discard":
+                e["k"] = op[1]; x.discard(op[1])
+            elif name == "pop":
+                e["b"] = op[1]
+                try:
+                    e["res"] = x.pop(last=bool(op[1]))
+                except KeyError:
+                    e["res"] = -1
+            elif name == "contains":
+                e["k"] = op[1]; e["res"] = 1 if op[1] in x else 0
+            elif name == "len":
+                e["res"] = len(x)
+            elif name == "ior":
+                x |= y
+            elif name == "iand":
+                x &= y
+            elif name == "isub":
+                x -= y
+            elif name == "or":
+                y = x | y
+            elif name == "and":
+                y = x & y
+            elif name == "sub":
+                y = x - y
+            elif name == "xor":
+                y = x ^ y
+            e["x"] = list(x); e["y"] = list(y)
+            if not isinstance(y, OrderedSet) or not isinstance(x, OrderedSet):
+                e["res"] = -99
+            ev.append(e)
+    elif kind == "uh":
+        keys = {}
+        h = UHeap(key=lambda it: keys[it])
+        for op in ops:
+            name = op[0]
+            e = {"op": name, "it": "", "k": 0, "res": 0}
+            if name == "push":
+                keys[op[1]] = op[2]
+                e["it"] = op[1]; e["k"] = op[2]
+                e["res"] = 1 if h.push(op[1]) else 0
+            elif name == "pop":
+                if len(h) == 0:
+                    continue
+                k, it = h.pop_with_key()
+                e["it"] = it; e["k"] = k
+            elif name == "peek":
+                if len(h) == 0:
+                    continue
+                e["it"] = h.peek()
+            elif name == "len":
+                e["res"] = len(h)
+            e["m"] = sorted([[it, k] for (k, it) in h._heap])
+            e["heap"] = [[k, it] for (k, it) in h._heap]
+            ev.append(e)
+    elif kind == "bv":
+        x, y = BitVector(), BitVector()
+
+        def blocks(v):
+            return [[i for i in range(v.binsize) if (b >> i) & 1] for b in v.blocks]
+        for op in ops:
+            name = op[0]
+            e = {"op": name, "k": 0, "res": 0}
+            if name == "add":
+                e["k"] = op[1]; x.add(op[1])
+            elif name == "addy":
+                e["k"] = op[1]; y.add(op[1])
+            elif name == "contains":
+                e["k"] = op[1]; e["res"] = 1 if op[1] in x else 0
+            elif name == "len":
+                e["res"] = len(x)
+            elif name == "and":
+                y = x & y
+            elif name == "or":
+                y = x | y
+            elif name == "iand":
+                x &= y
+            elif name == "ior":
+                x |= y
+            e["x"] = list(x); e["y"] = list(y); e["lenx"] = len(x)
+            e["bx"] = blocks(x); e["by"] = blocks(y)
+            ev.append(e)
+    return {"kind": kind, "events": ev}
